@@ -190,7 +190,7 @@ func covered(op compiler.Opcode) bool {
 		compiler.Opcode_Member_Anyobj, compiler.Opcode_Into_Range, compiler.Opcode_Call_Imm, compiler.Opcode_Return,
 		compiler.Opcode_Clone, compiler.Opcode_Cloning_Push, compiler.Opcode_Eq, compiler.Opcode_Eq_PopOnce, compiler.Opcode_Throw,
 		compiler.Opcode_Index, compiler.Opcode_Cast, compiler.Opcode_Member, compiler.Opcode_IntoIter,
-		compiler.Opcode_GetGlobImm, compiler.Opcode_SetGlobImm:
+		compiler.Opcode_GetGlobImm, compiler.Opcode_SetGlobImm, compiler.Opcode_IteratorAdvance:
 		return true
 	}
 	return isBinary(op)
@@ -240,6 +240,13 @@ func instrPre(c Core, i compiler.Instruction) bool {
 		return c.okTop(2) && c.peek(0).Kind() == value.IntValueKind && c.peek(1).Kind() == value.IntValueKind
 	case compiler.Opcode_Clone, compiler.Opcode_Throw, compiler.Opcode_IntoIter:
 		return c.okTop(1)
+	case compiler.Opcode_IteratorAdvance:
+		// an iterator (produced by IntoIter) is on top
+		if !c.okTop(1) {
+			return false
+		}
+		it, isIter := c.peek(0).(value.ValueIterator)
+		return isIter && it.Func != nil
 	case compiler.Opcode_GetGlobImm:
 		// the global exists (every global is initialised by its module's init routine before use)
 		g, ok := c.parent.globals.Data[i.(compiler.OneStringInstruction).Value]
@@ -339,7 +346,7 @@ func negInt(a int64) int64 { return -a }
 // completes without raising an interrupt.
 func stackEffect(op compiler.Opcode) int {
 	switch op {
-	case compiler.Opcode_Copy_Push, compiler.Opcode_Duplicate, compiler.Opcode_GetVarImm, compiler.Opcode_GetGlobImm:
+	case compiler.Opcode_Copy_Push, compiler.Opcode_Duplicate, compiler.Opcode_GetVarImm, compiler.Opcode_GetGlobImm, compiler.Opcode_IteratorAdvance:
 		return 1
 	case compiler.Opcode_Drop, compiler.Opcode_JumpIfFalse, compiler.Opcode_SetVarImm, compiler.Opcode_Pow, compiler.Opcode_Into_Range,
 		compiler.Opcode_Eq, compiler.Opcode_Index, compiler.Opcode_SetGlobImm:
@@ -396,7 +403,9 @@ func keepsFrame(op compiler.Opcode) bool {
     split instruction.Opcode() in 0..51
     assumes covered(instruction.Opcode())
     assumepre Clone, IsEqual, Display, Fields
+    dyncalls-pure
     requires instrPre(*self, instruction)
+    ensures @iterator-advance instruction.Opcode() == compiler.Opcode_IteratorAdvance ==> result == nil
     modifies self.Stack, self.CallStack, self.MemoryPointer, self.ExceptionCatchLabels, self.tryStates, elems(self.tryStates), elems(self.Stack), elems(self.Memory), elems(self.CallStack), elems(self.ExceptionCatchLabels), heap(value.Value), mapcontent(self.parent.globals.Data)
     ensures @interrupt-wellformed result != nil ==> *result != nil
     ensures @frames-on-interrupt result != nil ==> len(self.CallStack) == old(len(self.CallStack))
